@@ -233,6 +233,9 @@ pub struct XzFile {
     pub hcheck_override: Option<u8>,
     pub hcrc_xor: u32,
     pub idx_count: Option<u64>,
+    /// write a self-consistent index that lists only the first k blocks
+    #[serde(default)]
+    pub idx_keep: Option<usize>,
     /// override (record index, which: 0 unpadded / 1 unpacked, value)
     pub idx_rec: Option<(usize, u8, u64)>,
     /// add (record index, which, delta) to the correct value
@@ -396,6 +399,9 @@ impl XzFile {
         // index
         let istart = o.len();
         let mut idx = vec![0u8];
+        if let Some(k) = self.idx_keep {
+            recs.truncate(k);
+        }
         idx.extend_from_slice(&self.pad_varint(self.idx_count.unwrap_or(recs.len() as u64)));
         for (i, r) in recs.iter().enumerate() {
             let (mut a, mut b) = *r;
